@@ -1,5 +1,6 @@
 """impl worker: parse_script on each case -> canonical model / error; optional schema validation and lint.
-stdin: JSON list of {"chunks": [str...] | "text": str, "start": int?, "validate": bool?, "lint": bool?}"""
+stdin: JSON list of {"chunks": [str...] | "text": str, "as": "list"|"tuple"|"iter"|"gen" (how the chunks are handed over), "start": int?,
+"validate": bool?, "lint": bool?}"""
 import copy
 import json
 import sys
@@ -51,6 +52,13 @@ def main():
     out = []
     for case in json.load(sys.stdin):
         src = case['chunks'] if 'chunks' in case else case['text']
+        kind = case.get('as', 'list')
+        if 'chunks' in case and kind == 'tuple':
+            src = tuple(src)
+        elif 'chunks' in case and kind == 'iter':
+            src = iter(src)
+        elif 'chunks' in case and kind == 'gen':
+            src = (part for part in list(src))
         start = case.get('start', 1)
         res = {}
         try:
